@@ -220,8 +220,12 @@ func genC04(g *Gen) {
 	}
 	r := g.Rng("C04")
 	for i := 0; i < n; i++ {
-		comp := []string{"lt", "gt"}[r.Intn(2)]
+		// every third run uses a strict comparator WITH TIES (keys in one class of ten are one key)
+		comp := []string{"lt", "gt", "klt", "gt", "lt", "kgt"}[r.Intn(6)]
 		keyRange := []int{8, 30, 200}[r.Intn(3)]
+		if comp == "klt" || comp == "kgt" {
+			keyRange = []int{25, 60, 200}[r.Intn(3)]
+		}
 		var ops []string
 		// insertion order: sorted, reversed or random
 		m := r.Range(3, 60)
@@ -478,13 +482,20 @@ func genC07(g *Gen) {
 		}
 	}
 	// bulk runs: large capacities, fill beyond capacity (evictions), drain from the old end, refill
-	for _, n := range bulkSizes(g.Thorough()) {
+	for _, pl := range bulkPlans(g.Thorough()) {
 		if !g.Mine() {
 			continue
 		}
-		ops := append([]string{"create"}, bulkOps(func(i int) string { return "add " + itoa(i%(n+9)) + " " + itoa(i) },
-			"removeoldest", []string{"count", "getyoungest"}, n+20)...)
-		g.Emit("lru", []string{itoa(n)}, ops)
+		n := pl[0]
+		// capacity n (filled beyond it: evictions) and capacity above everything that is added
+		for _, capacity := range []int{n, 2*n + 100} {
+			ops := append([]string{"create"}, bulkPlan(func(i int) string { return "add " + itoa(i%(n+9)) + " " + itoa(i) },
+				"removeoldest", []string{"count", "getyoungest", "get 0", "get " + itoa(n/2)}, n+20, pl[1], pl[2])...)
+			g.Emit("lru", []string{itoa(capacity)}, ops)
+			if n <= 3000 {
+				break
+			}
+		}
 	}
 	n := 300
 	if g.Thorough() {
